@@ -194,7 +194,7 @@ class CHECK(vlib.Check):
                 "AF_UNIX socket pair semantics (a byte sent is readable at once on the other end, recv absorbs up to the buffer size, a closed end makes the other end readable): the real sockets are used and queried by the harness, select() is replaced by the scheduler",
                 "one transition = one _queueLock critical section / one signal / one return: interleavings inside a critical section are not distinguished; unlocked reads of _messageSocketsAllocated, the socket references and _messages.HasItems() are taken to be atomic (the C++ data races on them are outside the model)",
                 "only the owner thread (thread 0) receives replies and calls Start/Shutdown/WaitForInternalThreadToExit, as Thread.h documents; one reader per queue",
-                "pending-notification counts stay below 2^32 (saturation not modelled); allocation never fails",
+                "allocation never fails",
                 "liveness is proved in its safety form only (an enabled transition exists); fairness of the OS scheduler is not modelled"]
     rule = ("each case = an owner program (start / sends / receives poll, blocking, timed / shutdown / join / restart) plus 0..3 sender "
             "threads + the signalling mechanism + a schedule (explicit decisions, then a seeded random or non-preemptive policy); the "
